@@ -341,7 +341,7 @@ func observeResolicit(t *testing.T, le *logrus.Entry, lo, hi peer.ID, v pc) (rou
 
 func TestC30(t *testing.T) {
 	run := evid.Start("C30", "exploration")
-	acc := enum.NewAcc(run, "hash level: every ordered pair of the 12 (protocol, context) values under each of 3 session ids; list level: ComputeProtocolHashes+FindMatchingHashes on every ordered pair of singleton entry lists; two-node level: two real solicitation controllers joined by a fake link, one SolicitProtocol directive per side (plus two two-directives-on-one-side groups), over (value pair) x (peer constraint in {none, remote, third, self}) x (transport constraint in {0, own transport, other transport}) per side x which side has the lower peer ID x whether links or directives come first; non-trivial = the two solicitations are not identical-and-unconstrained; distinct by (group, all parameters)")
+	acc := enum.NewAcc(run, "hash level: every ordered pair of the 12 (protocol, context) values under each of 3 session ids; list level: ComputeProtocolHashes+FindMatchingHashes on every ordered pair of singleton entry lists; two-node level: two real solicitation controllers joined by a fake link, one SolicitProtocol directive per side (plus two two-directives-on-one-side groups), over (value pair) x (peer constraint in {none, remote, third, self}) x (transport constraint in {0, own transport, other transport}) per side x which side has the lower peer ID x whether links or directives come first; directive level: every ordered pair of SolicitProtocol directives over the values plus separator-split values x 2 peer constraints x 2 transport constraints compared with IsEquivalent, folds confirmed on a real directive controller; non-trivial = the two solicitations are not identical-and-unconstrained; distinct by (group, all parameters)")
 
 	log := logrus.New()
 	log.SetOutput(io.Discard)
